@@ -37,6 +37,12 @@ def c08_runs(tier, scale):
     return [("c08", [1500 * scale, 3], None), ("c08", [1000 * scale, 4], None)]
 
 
+def c09_runs(tier, scale):
+    if tier == "thorough":
+        return [("c09", [6000 * scale, 2 + (i % 4), 1 if i == 0 else 0], None) for i in range(16)]
+    return [("c09", [800 * scale, 3, 1], None), ("c09", [700 * scale, 4, 0], None)]
+
+
 def c05_runs(tier, scale):
     th = 1 if tier == "thorough" else 0
     runs = [("c05", [lim, th], None) for lim in ([4096, 65536, 1 << 20] if tier == "quick" else [4096, 16384, 65536, 1 << 20, 16 << 20])]
@@ -195,6 +201,31 @@ PROPS = {
                 "resolver written from the specification over BOTH schemas, result validates against R, resolve twice = once, datum reader and container reader "
                 "with reader schema agree with Value::resolve; failures are localized to the deepest disagreeing node and classed by (writer kind, reader kind)",
         "trusted_base": DATUM_TB + ["f32/f64 conversions are a parameter of the model (FloatOps)", "the specification oracle (harness/src/c08.rs spec_resolve, default_value) is hand-written from the Avro 1.12 text"],
+        "assumptions": [],
+    },
+    "C09": {
+        "lean_modules": ["AvroProofs.C09"],
+        "theorems": ["Avro.C09.self_full", "Avro.C09.mutual_symmetric", "Avro.C09.promotions_full", "Avro.C09.enum_symbols_added",
+                     "Avro.C09.reader_union_branch_added", "Avro.C09.reader_union_superset", "Avro.C09.record_safe",
+                     "Avro.C09.full_sound_scalars_partial", "Avro.C09.full_unsound_logical_to_float", "Avro.C09.full_unsound_bytes_to_string",
+                     "Avro.C09.full_unsound_string_to_uuid", "Avro.C09.reorder_with_named_type_incompatible"],
+        "partial": [
+            {"theorem": "Avro.C09.full_sound_scalars_partial",
+             "excluded_by": "restricted to null/boolean/int/long/float/double on both sides. The general soundness statement (Full => every value of W reads with R) is "
+                            "FALSE of the code: full_unsound_* are kernel-checked counterexamples on the models of the checker and of resolve, reproduced on the "
+                            "crate by the oracle and recorded as open findings C09.*; for nested types soundness is decided by the oracle (6 values per Full pair)"},
+            {"theorem": "Avro.C09.record_safe / reader_union_* / enum_symbols_added / promotions_full",
+             "excluded_by": "each always-safe step is proved to keep Full at the node where it is applied, given Full below it; a safe reorder that moves the DEFINITION of "
+                            "a named type to another field is reported incompatible (reorder_with_named_type_incompatible, open finding)"},
+        ],
+        "harness": c09_runs,
+        "projection": "exact",
+        "nontrivial": lambda l: True,
+        "rule": "ordered pairs: all 48x48 pairs of a fixed universe (every primitive, logical types, fixed/enum/record/array/map/union variants incl. a recursive record and a "
+                "definition-moving reorder) + pairs from the C08 evolution generator (half of them with always-safe steps only); rows: (can_read, mutual_read) vs the model, exact; "
+                "oracle: Full => 6 generated values of W read through GenericDatumReader with reader schema; safe-only pairs are not Err; can_read(W, W) = Full; mutual_read symmetric",
+        "trusted_base": ["the pointer-keyed memo table of the checker is not modelled (it caches results of a pure function after they are computed; DefaultHasher collisions on addresses are ignored)",
+                         "schemas are printed for the model with fully qualified names (harness printer)"],
         "assumptions": [],
     },
     "C05": {
